@@ -13,8 +13,8 @@ static const PinDef DEFS[7] = {{ATTACH_POS_LEFT, ATTACH_POS_CENTRE, ATTACH_POS_M
                                {ATTACH_POS_CENTRE, ATTACH_POS_TOP, 10, ATTACH_POS_MIN_OFFSET, ConnDirUp, "T"}, {ATTACH_POS_CENTRE, ATTACH_POS_BOTTOM, 10, ATTACH_POS_MAX_OFFSET, ConnDirDown, "B"},
                                {ATTACH_POS_RIGHT, 0.25, ATTACH_POS_MAX_OFFSET, 5, ConnDirRight, "R1"}, {ATTACH_POS_RIGHT, 0.75, ATTACH_POS_MAX_OFFSET, 15, ConnDirRight, "R2"},
                                {ATTACH_POS_LEFT, ATTACH_POS_CENTRE, ATTACH_POS_MIN_OFFSET, 10, ConnDirLeft, "L+7", 7}};   // the same place and directions as L, 7 further inside
-struct Cfg { bool ortho; double inside; bool proportional; int dirMode; int excl; int mv; int cps; bool toJunction; int heap; bool early = false; int extra = 0; bool costs = false; int cpDirs = 0; };   // cpDirs: 1 checkpoints may only be ARRIVED AT from the left (ConnDirLeft), 2 only be LEFT towards smaller y (libavoid's VertInf::directionFrom calls that ConnDirDown), 3 both   // extra: pins of ANOTHER class on the same shape (1: a ConnDirAll centre pin, 2: directional pins at the middle of all four sides)   // early: the move/resize (and a junction move) is issued BEFORE the first processTransaction   // dirMode 0 automatic(ConnDirNone) 1 explicit side 2 All; excl 0 default 1 forced exclusive 2 forced shared
-static string cfg_str(const Cfg &c) { return mcx::fmt("%s insideOffset=%g %s dirs=%s exclusive=%s then=%s checkpoints=%d far_end=%s heap=%d", c.ortho ? "orthogonal" : "polyline", c.inside, c.proportional ? "proportional" : "absolute", c.dirMode == 0 ? "automatic" : c.dirMode == 1 ? "side" : "all", c.excl == 0 ? "default" : c.excl == 1 ? "forced" : "shared", c.mv == 0 ? "nothing" : c.mv == 1 ? "translate" : c.mv == 2 ? "resize" : c.mv == 3 ? "move-junctions" : c.mv == 4 ? "move-junctions+translate" : c.mv == 5 ? "reattach-to-second-shape+translate-first" : "reattach-to-second-shape+resize-first", c.cps, c.toJunction ? "junction" : "point", c.heap) + (c.early ? " move-before-first-transaction" : "") + (c.extra == 1 ? " +centre pin of another class" : c.extra == 2 ? " +four side pins of another class" : "") + (c.costs ? " +connection costs (50 on every other pin)" : "") + (c.cpDirs ? mcx::fmt(" checkpoint directions#%d", c.cpDirs) : string()); }
+struct Cfg { bool ortho; double inside; bool proportional; int dirMode; int excl; int mv; int cps; bool toJunction; int heap; bool early = false; int extra = 0; bool costs = false; int cpDirs = 0; bool flip = false; /* flip: the FIRST connector runs target -> pin (the router routes connectors in reverse creation order, so with flip the connector that ENDS on the pin is routed after the one that starts there) */ };   // cpDirs: 1 checkpoints may only be ARRIVED AT from the left (ConnDirLeft), 2 only be LEFT towards smaller y (libavoid's VertInf::directionFrom calls that ConnDirDown), 3 both   // extra: pins of ANOTHER class on the same shape (1: a ConnDirAll centre pin, 2: directional pins at the middle of all four sides)   // early: the move/resize (and a junction move) is issued BEFORE the first processTransaction   // dirMode 0 automatic(ConnDirNone) 1 explicit side 2 All; excl 0 default 1 forced exclusive 2 forced shared
+static string cfg_str(const Cfg &c) { return mcx::fmt("%s insideOffset=%g %s dirs=%s exclusive=%s then=%s checkpoints=%d far_end=%s heap=%d", c.ortho ? "orthogonal" : "polyline", c.inside, c.proportional ? "proportional" : "absolute", c.dirMode == 0 ? "automatic" : c.dirMode == 1 ? "side" : "all", c.excl == 0 ? "default" : c.excl == 1 ? "forced" : "shared", c.mv == 0 ? "nothing" : c.mv == 1 ? "translate" : c.mv == 2 ? "resize" : c.mv == 3 ? "move-junctions" : c.mv == 4 ? "move-junctions+translate" : c.mv == 5 ? "reattach-to-second-shape+translate-first" : "reattach-to-second-shape+resize-first", c.cps, c.toJunction ? "junction" : "point", c.heap) + (c.early ? " move-before-first-transaction" : "") + (c.extra == 1 ? " +centre pin of another class" : c.extra == 2 ? " +four side pins of another class" : "") + (c.costs ? " +connection costs (50 on every other pin)" : "") + (c.cpDirs ? mcx::fmt(" checkpoint directions#%d", c.cpDirs) : string()) + (c.flip ? " first connector runs target->pin" : ""); }
 
 static bool onSeg(Point a, Point b, Point p) { return fabs((b.x - a.x) * (p.y - a.y) - (p.x - a.x) * (b.y - a.y)) < 1e-6 && p.x >= min(a.x, b.x) - 1e-6 && p.x <= max(a.x, b.x) + 1e-6 && p.y >= min(a.y, b.y) - 1e-6 && p.y <= max(a.y, b.y) + 1e-6; }
 
@@ -51,9 +51,9 @@ static void run(unsigned pm, int k, const vector<pair<int, int>> &targets, const
         vector<ConnRef *> cs; vector<JunctionRef *> js; vector<vector<Point>> cpl(k);
         for (int i = 0; i < k; i++) {
             Point tp(targets[i].first * S, targets[i].second * S); ConnRef *cn;
-            if (c.toJunction) { JunctionRef *j = new JunctionRef(r, tp); js.push_back(j); cn = (i % 2 == 0) ? new ConnRef(r, ConnEnd(sh, 1), ConnEnd(j)) : new ConnRef(r, ConnEnd(j), ConnEnd(sh, 1)); }
-            else { js.push_back(nullptr); cn = (i % 2 == 0) ? new ConnRef(r, ConnEnd(sh, 1), ConnEnd(tp)) : new ConnRef(r, ConnEnd(tp), ConnEnd(sh, 1)); }
-            if (c.cps && (i == 0 || (c.cpDirs && c.cpDirs != 4))) { vector<Checkpoint> v; cpl[i].push_back(c.cpDirs == 4 ? Point(3 * S, 4.5 * S) : Point(4.5 * S, 4.5 * S)); if (c.cps > 1) cpl[i].push_back(Point(-0.5 * S, 4.5 * S)); if (i % 2) reverse(cpl[i].begin(), cpl[i].end()); for (auto &p : cpl[i]) v.push_back(c.cpDirs == 4 ? Checkpoint(p, (ConnDirFlags)ConnDirLeft, (ConnDirFlags)ConnDirRight) : c.cpDirs ? Checkpoint(p, (c.cpDirs & 1) ? (ConnDirFlags)ConnDirLeft : (ConnDirFlags)ConnDirAll, (c.cpDirs & 2) ? (ConnDirFlags)ConnDirDown : (ConnDirFlags)ConnDirAll) : Checkpoint(p)); cn->setRoutingCheckpoints(v); }
+            if (c.toJunction) { JunctionRef *j = new JunctionRef(r, tp); js.push_back(j); cn = ((i % 2 == 0) != c.flip) ? new ConnRef(r, ConnEnd(sh, 1), ConnEnd(j)) : new ConnRef(r, ConnEnd(j), ConnEnd(sh, 1)); }
+            else { js.push_back(nullptr); cn = ((i % 2 == 0) != c.flip) ? new ConnRef(r, ConnEnd(sh, 1), ConnEnd(tp)) : new ConnRef(r, ConnEnd(tp), ConnEnd(sh, 1)); }
+            if (c.cps && (i == 0 || (c.cpDirs && c.cpDirs != 4))) { vector<Checkpoint> v; cpl[i].push_back(c.cpDirs == 4 ? Point(3 * S, 4.5 * S) : Point(4.5 * S, 4.5 * S)); if (c.cps > 1) cpl[i].push_back(Point(-0.5 * S, 4.5 * S)); if ((i % 2 == 1) != c.flip) reverse(cpl[i].begin(), cpl[i].end()); for (auto &p : cpl[i]) v.push_back(c.cpDirs == 4 ? Checkpoint(p, (ConnDirFlags)ConnDirLeft, (ConnDirFlags)ConnDirRight) : c.cpDirs ? Checkpoint(p, (c.cpDirs & 1) ? (ConnDirFlags)ConnDirLeft : (ConnDirFlags)ConnDirAll, (c.cpDirs & 2) ? (ConnDirFlags)ConnDirDown : (ConnDirFlags)ConnDirAll) : Checkpoint(p)); cn->setRoutingCheckpoints(v); }
             cs.push_back(cn);
         }
         if (!c.early) { r->processTransaction(); nTrans++; }
@@ -61,7 +61,7 @@ static void run(unsigned pm, int k, const vector<pair<int, int>> &targets, const
         if (c.mv == 1) { r->moveShape(sh, 0.25 * S, 0); r->processTransaction(); nTrans++; }
         else if (c.mv == 2) { Rectangle nr(Point(1.25 * S, 1.5 * S), Point(2.75 * S, 2.25 * S)); r->moveShape(sh, nr); r->processTransaction(); nTrans++; }
         else if (c.mv == 3 || c.mv == 4) { int q = 0; for (auto j : js) if (j) { if (q++ % 2 == 0) r->moveJunction(j, 0.5 * S, 0); else r->moveJunction(j, Point(j->position().x, j->position().y - 0.25 * S)); } if (c.mv == 4) r->moveShape(sh, 0.25 * S, 0); r->processTransaction(); nTrans++; }   // junctions moved in a LATER transaction (4: together with the shape)
-        else if (c.mv == 5 || c.mv == 6) { for (size_t ci = 0; ci < cs.size(); ci++) { if (ci % 2 == 0) cs[ci]->setSourceEndpoint(ConnEnd(sh2, 1)); else cs[ci]->setDestEndpoint(ConnEnd(sh2, 1)); }
+        else if (c.mv == 5 || c.mv == 6) { for (size_t ci = 0; ci < cs.size(); ci++) { if ((ci % 2 == 0) != c.flip) cs[ci]->setSourceEndpoint(ConnEnd(sh2, 1)); else cs[ci]->setDestEndpoint(ConnEnd(sh2, 1)); }
             if (c.mv == 5) r->moveShape(sh, 0.25 * S, 0); else { Rectangle nr(Point(1.25 * S, 1.5 * S), Point(2.75 * S, 2.25 * S)); r->moveShape(sh, nr); }
             r->processTransaction(); nTrans++; pins = pins2; }
         else if (c.early) { r->processTransaction(); nTrans++; }
@@ -69,7 +69,7 @@ static void run(unsigned pm, int k, const vector<pair<int, int>> &targets, const
             nontriv = npins > 1;
             multiset<pair<double, double>> used;
             for (size_t ci = 0; ci < cs.size(); ci++) {
-                const PolyLine &d = cs[ci]->displayRoute(); bool pinFirst = (ci % 2 == 0);
+                const PolyLine &d = cs[ci]->displayRoute(); bool pinFirst = ((ci % 2 == 0) != c.flip);
                 string rs; for (size_t q = 0; q < d.size(); q++) rs += mcx::fmt("(%g,%g)", d.ps[q].x, d.ps[q].y);
                 if (d.size() < 2) { if (why.empty()) { why = "route too short"; obs = rs; } continue; }
                 Point e = pinFirst ? d.ps[0] : d.ps[d.size() - 1], nxt = pinFirst ? d.ps[1] : d.ps[d.size() - 2], far = pinFirst ? d.ps[d.size() - 1] : d.ps[0];
@@ -156,6 +156,9 @@ int main(int argc, char **argv) {
         phase({(bool)ortho, 3, true, 0, 0, 1, 0, false, heap}, few, 2, 2);
         phase({(bool)ortho, 3, true, 2, 1, 1, 0, false, heap}, few, 2, 2);
         phase({(bool)ortho, 3, true, 1, 2, 0, 0, false, heap}, few, 2, 2);
+        // ONE shared pin that is not level with the shape's centre (R1 or R2 alone; with L as a second, central pin), two connectors, one of which ends on it: the second user of a shared pin
+        for (int mv = 0; mv < 3; mv++) for (int tj = 0; tj < 2; tj++) for (int fl = 0; fl < 2; fl++) { Cfg e{(bool)ortho, 3, true, 1, 2, mv, 0, (bool)tj, heap}; e.flip = fl; phase(e, {16u, 32u, 17u}, 2, 1); }
+        { Cfg e{(bool)ortho, 3, true, 1, 0, 1, 0, false, heap}; e.flip = true; phase(e, few, 2, 2); Cfg f{(bool)ortho, 3, true, 1, 2, 0, 0, false, heap}; f.flip = true; phase(f, few, 2, 2); }
         phase({(bool)ortho, 3, true, 1, 0, 1, 0, true, heap}, few, 2, 2);
         for (int mv = 3; mv <= 4; mv++) phase({(bool)ortho, 3, true, 1, 0, mv, 0, true, heap}, few, 2, 2);
         for (int mv = 5; mv <= 6; mv++) for (int tj = 0; tj < 2; tj++) phase({(bool)ortho, 3, true, 1, 0, mv, 0, (bool)tj, heap}, few, 2, 2);
